@@ -116,15 +116,61 @@ def run(tier):
                     {"case": c, "answer": r, "at": vd["at"]})
     for cr in crashed:
         v.violation("crash", "harness crashed: " + json.dumps(cr)[:500], cr)
+    # stage 2: the bounds auxiliary variables finally have in the DELIVERED model (after propagation down from
+    # root constraints) still contain the expression's value at every feasible point (TraceBoundsDelivered.tla)
+    import cvtcases, drv
+    dexe = targets.get("h_drv_asan" if tier == "thorough" else "h_drv")
+    gen2, g2 = cvtcases.generate()
+    cfgs, acc = cvtcases.configs(dexe)
+    native = [c_ for c_ in cfgs if c_[0] in ("native", "native-nocones")] + [("native-nopre", ["cvt:pre:all=0"]), ("native-noeq", ["cvt:pre:eqresult=0", "cvt:pre:eqbinary=0"])]
+    # propagation down from root constraints is what this stage is about: every (operator, use) stratum of the
+    # logical models and of the numeric models used inside logical constraints, with a seeded shape / domain
+    # pattern (thorough: five per stratum and a sample of everything else)
+    rnd2 = random.Random(seed() + 3)
+    strata = {}
+    for g_ in gen2:
+        if g_["kind"] == "log" or (g_["kind"] == "num" and g_["use"] in ("lcon_lt", "lcon_ne", "lcon_noteq", "inor", "shared", "lcon_lth", "iff_gth")):
+            strata.setdefault((g_["kind"], g_["op"], g_["use"]), []).append(g_)
+    dcases = []
+    for key_ in sorted(strata):
+        for g_ in rnd2.sample(strata[key_], min(len(strata[key_]), 6 if tier == "thorough" else 3 if key_[0] == "log" else 1)):
+            name_, opts_ = native[0] if rnd2.random() < 0.6 else native[rnd2.randrange(len(native))]
+            dcases.append({"id": len(dcases), "gen": g_, "cfgname": name_, "opts": list(opts_)})
+    if tier == "thorough":
+        rest = [g_ for g_ in gen2 if g_["kind"] in ("num", "nest", "dvar")]
+        for c_ in cvtcases.sample(rest, (native, acc), 1200, seed() + 4):
+            j = len(dcases)
+            dcases.append({"id": j, "gen": c_["gen"], "cfgname": native[j % len(native)][0], "opts": list(native[j % len(native)][1])})
+    drecs, dstats = cvtcases.run_and_record(dexe, PID + "d", dcases)
+    din = [dict(r_, e="Deliv") for r_ in drecs if r_.get("e") == "Case" and r_["outcome"] == "converted" and not r_["ng"] and not r_["toobig"]]
+    dres = validate_parallel("TraceBoundsDelivered", "TraceBoundsDelivered.cfg", din, sd, "c06d")
+    dverd = [x for r_ in dres for x in printed_json(r_, "VERDICT")]
+    if len(dverd) != len(din):
+        raise Broken("stage 2: verdict count %d != %d" % (len(dverd), len(din)))
+    dtally = {}
+    dby = {c_["id"]: c_ for c_ in dcases}
+    for vd in dverd:
+        dtally[vd["v"]] = dtally.get(vd["v"], 0) + 1
+        if vd["v"] in ("ok", "undetermined"):
+            continue
+        c_ = dby.get(vd["id"], {})
+        g_ = c_.get("gen", {})
+        key = "%s:%s:%s:%s:%s:%s:k%s:%s" % (vd["v"], g_.get("kind"), g_.get("op"), g_.get("sh"), "-".join(g_.get("pat", [])), g_.get("use"), g_.get("k"), c_.get("cfgname"))
+        v.violation(key, "delivered model of %s/%s shape=%s domains=%s use=%s k=%s under %s: at the feasible point %s (scaled by D) the auxiliary variable(s) %s stand for a value outside their final bounds / type" %
+                    (g_.get("kind"), g_.get("op"), g_.get("sh"), g_.get("pat"), g_.get("use"), g_.get("k"), c_.get("cfgname"),
+                     vd["at"][0] if vd["at"] else None, vd["at"][1] if vd["at"] else None),
+                    {"gen": g_, "config": c_.get("cfgname"), "opts": c_.get("opts"), "at": vd["at"]})
     rcode, nnew = v.finish()
+    if rcode == 0 and dtally.get("ok", 0) < len(din) // 3:
+        raise Broken("stage 2 vacuous: %s" % dtally)
     write_evidence(PID, tier, {
         "states": g.distinct + sum(r.distinct for r in vres), "transitions": g.generated + sum(r.generated for r in vres),
         "traces_validated_against_impl": len(recs),
         "samples": [recs[0], recs[len(recs) // 2], recs[-1]],
-        "evaluations": len(recs), "verdicts": tally, "generated_cases_total": len(printed_json(g, "CASE")),
+        "evaluations": len(recs) + len(din), "verdicts": tally, "delivered_models": len(din), "delivered_verdicts": dtally, "generated_cases_total": len(printed_json(g, "CASE")),
         "answers_by_kind": {k: sum(1 for r in byid.values() if r["kind"] == k) for k in ("var", "const", "alias", "throw")},
         "exhaustive": tier == "thorough",
-        "explanation": "TLC generates (functional type x argument-domain patterns incl. half-infinite/infinite/fixed/negative/zero-crossing/int-cont mixes x parameters); the real converter's AssignResult2Args answers are validated by TLC: every value of the function on the argument grid (half-integers for continuous arguments) lies within the assigned bounds, integrality only if integer-valued, constants/aliases only if equal",
+        "explanation": "TLC generates (functional type x argument-domain patterns incl. half-infinite/infinite/fixed/negative/zero-crossing/int-cont mixes x parameters); the real converter's AssignResult2Args answers are validated by TLC: every value of the function on the argument grid (half-integers for continuous arguments) lies within the assigned bounds, integrality only if integer-valued, constants/aliases only if equal; stage 2: for generated models converted natively through the real driver, the canonical value of every auxiliary variable at every feasible grid point lies within the bounds / type the variable has in the delivered model (propagation from root constraints may only remove values no feasible point attains)",
         "violations_new": nnew,
     }, time.time() - t0, violations=nnew,
         assumptions=["exp/log/trig/fractional powers: decided on margins measured with libm at sample points of the argument domain (ends, eighths, a fixed menu incl. multiples of pi/2), unit 1e-6 * max(1,|f|); a sampled observation, not a proof over the reals",
